@@ -535,9 +535,13 @@ class Connection(object):
         # The following condition being false indicates that an exception
         # handler has initiated a new connection, meaning that we should not
         # interfere with the connection state. Otherwise, make sure that any
-        # current connection is completely terminated.
-        if (self.new_networking_thread or self.networking_thread).interrupt:
-            self.disconnect(immediate=True)
+        # current connection is completely terminated. The write lock is held
+        # across the check and the disconnection, so that a connection made by
+        # another thread in between is not mistaken for the one that failed.
+        with self._write_lock:  # pylint: disable=not-context-manager
+            if (self.new_networking_thread
+                    or self.networking_thread).interrupt:
+                self.disconnect(immediate=True)
 
         # If allowed by the final exception handler, re-raise the exception.
         if final_handler is None and not caught:
